@@ -188,6 +188,7 @@ def run(ctx):
     c09.rule_save_restore(ctx, R="C10/append-position-restore")
     # ... and a failed write/seek aborts the request: carrying on after one would append at an unknown position
     c09.rule_dest_errors_abort(ctx, R="C10/dest-errors-abort")
+    c09.rule_append_flush(ctx, R="C10/flush-state")     # the flushed mark starts at 0 (the header is part of the first flush) and advances only after a write
     # "everything a stream references is completely present" needs the references to be exact: a memory descriptor names the bytes
     # that WERE appended (their location), not the bytes that were asked for (same rule instance as C01/size-origin)
     c01.rule_size_origin(ctx, R="C10/references-are-written")
